@@ -208,6 +208,48 @@ def _behaviours(ctx: Ctx, module: str, cfg: str, num: int, depth: int, seed: int
     return out
 
 
+def thread_year_start_events(ctx: Ctx, rnd: random.Random, nbeh: int, cal_ids: list, seed: int, tag: str) -> list:
+    """Per-query "ys" events (Trace_Caches) from TLC-simulated two-thread schedules enforced on a fresh calculator of each of
+    the given calendars: what LocalDate(y, 1, 1) -> day number answers while another thread fills colliding cache slots.
+    Used by C01/C02 as well: a calendar must map dates to days the same way whatever other threads are asking."""
+    from pyoda_time import CalendarSystem
+
+    cfg = YSC.format(threads="t1, t2", keys="0, 1, 2, 3, 4, 5, 6, 7", nops=2, view="", invs="")
+    behs = _behaviours(ctx, "MC_YearStartCache", cfg, nbeh, 40, seed, tag)
+    files_cal = ("pyoda_time/calendars/_year_month_day_calculator.py",)
+    out = []
+    for b in behs:
+        prog, sched = b["prog"], b["sched"]
+        names = sorted(prog)
+        cal = CalendarSystem.for_id(rnd.choice(cal_ids))
+        base = rnd.randint(max(cal.min_year + 5, 1), min(1000, cal.max_year - 7 * 512 - 5))
+        ymap = {k: base + (k % 2) + 1024 * (k // 2) for k in range(8)}
+        if max(ymap.values()) > cal.max_year:
+            continue
+        calc = cal._year_month_day_calculator       # the calendar's own calculator, with its caches emptied for the run
+        results = []
+        lock = threading.Lock()
+
+        def body(tn, calc=calc, prog=prog, ymap=ymap, results=results, lock=lock):
+            def fn(s):
+                for k in prog[tn]:
+                    y = ymap[k]
+                    v = calc._get_start_of_year_in_days(y)
+                    with lock:
+                        results.append((y, v))
+            return fn
+
+        def scheduled(names=names, sched=sched, body=body):
+            sch = LineScheduler(files_cal, stall_s=0.02)
+            sch.run([body(tn) for tn in names], [names.index(t) for t in sched if t in names])
+
+        cold(calc, scheduled)
+        for y, v in results:
+            out.append({"op": "ys", "cal": cal.id, "y": y, "m": 1, "d": 1, "res": v, "pure": cold(calc, lambda y=y: calc._get_start_of_year_in_days(y)),
+                        "threads": True, "year_start": True})
+    return out
+
+
 def threaded_events(ctx: Ctx, rnd: random.Random, q: bool) -> list:
     from pyoda_time import CalendarSystem, LocalDate
     from pyoda_time.time_zones import DateTimeZoneCache
